@@ -183,4 +183,10 @@ def units(tier):
     # the server id that is hashed is the one String.read decoded from the encryption request: it must be exactly the
     # string the server sent (strict UTF-8, nothing stripped or normalised), else the digest is of a different id
     su.prop, su.name = 'C17', 'C17.server-id.string-decoding'
-    return [HashUnit(), su]
+    # "the server hash SENT to the session service": the step that computes the hash and hands it to join() - on every
+    # attempt, also after the service answered with an error
+    from . import c10
+    es = c10.EncStep()
+    es.prop, es.name = 'C17', 'C17.hash-sent-to-join'
+    from .deps import dependency_units
+    return [HashUnit(), su, es] + dependency_units('C17')
